@@ -5,6 +5,7 @@ From Coq Require Import List NArith Bool Lia ZifyN ZifyBool Arith.
 From Cfb.model Require Import Base Names DirEnt State Alloc Dir Mini Open.
 From Cfb.gen Require Import Consts.
 From Cfb.proofs Require Import WalkProofs.
+From Cfb.proofs Require CodecProofs.
 Import ListNotations.
 Open Scope N_scope.
 
@@ -62,10 +63,39 @@ Ltac fine_if :=
   | |- fine (if ?c then _ else _) => destruct c eqn:?; [try exact I|try exact I]
   end.
 
+Lemma dirent_decode_short_fine strict bs : lenN bs < DIR_ENTRY_LEN -> fine (dirent_decode_short strict bs).
+Proof.
+  intros Hshort. unfold dirent_decode_short. cbv zeta.
+  set (pad := bs ++ repeatN 0 (DIR_ENTRY_LEN - lenN bs)).
+  assert (Hpad : lenN pad = DIR_ENTRY_LEN).
+  { unfold pad. rewrite CodecProofs.lenN_app, CodecProofs.lenN_repeatN. lia. }
+  fine_if.
+  destruct (N.ltb_spec 64 (le_val (takeN 2 (dropN 64 pad)))) as [|H64]; [exact I|].
+  fine_if.
+  match goal with |- fine (match nthN ?l ?i with _ => _ end) => destruct (nthN l i) as [term|] eqn:Hnth end.
+  2:{ apply nthN_None_ge in Hnth. rewrite lenN_u16s, lenN_takeN in Hnth.
+      unfold DIR_ENTRY_LEN in Hpad.
+      destruct (0 <? le_val (takeN 2 (dropN 64 pad))); lia. }
+  fine_if.
+  destruct (from_utf16 _) as [nm0|]; [|exact I].
+  fine_if.
+  destruct (nthN pad 66) as [tb|]; [|exact I].
+  destruct (objtype_of_byte tb) as [ty|]; [|exact I].
+  match goal with |- fine (match ?x with _ => _ end) =>
+    assert (Hx : fine x); [|destruct x; try exact I; try contradiction] end.
+  { destruct (objtype_eqb ty TRoot).
+    - destruct (list_eqb _ _ _); [exact I|]. destruct strict; exact I.
+    - apply validate_name_fine. }
+  fine_if.
+  destruct (nthN pad 67) as [cb|]; [|exact I].
+  destruct (color_of_byte cb) as [col|]; [|exact I].
+  repeat fine_if.
+Qed.
+
 Theorem dirent_decode_fine v strict bs : fine (dirent_decode v strict bs).
 Proof.
   unfold dirent_decode. cbv zeta.
-  destruct (N.ltb_spec (lenN bs) DIR_ENTRY_LEN) as [|Hlen]; [exact I|].
+  destruct (N.ltb_spec (lenN bs) DIR_ENTRY_LEN) as [Hs|Hlen]; [apply dirent_decode_short_fine; exact Hs|].
   destruct (N.ltb_spec 64 (le_val (takeN 2 (dropN 64 bs)))) as [|H64]; [exact I|].
   fine_if.
   match goal with |- fine (match nthN ?l ?i with _ => _ end) => destruct (nthN l i) as [term|] eqn:Hnth end.
